@@ -38,6 +38,10 @@ def run(tier):
     for i in range(300 if quick else 8000 * common.TS):
         plist.append({"name": "hostcls/%d" % i, "steps": [("snip", feat_cls.host_class_program(rh.fork(str(i))))], "mods": [], "hostclasses": True})
 
+    ro = ck.rng.fork("objover")
+    for i in range(200 if quick else 5000 * common.TS):
+        plist.append({"name": "objover/%d" % i, "steps": [("snip", feat_cls.object_override_program(ro.fork(str(i))))], "mods": []})
+
     def seen(p, m, res):
         v = m["view"][0]
         src = p["steps"][0][1]
